@@ -3,20 +3,42 @@
 fb_slot_t fb_slots[FB_MAX_SLOTS];
 _Atomic int fb_nslots;
 
+static _Atomic unsigned fb_cursor;
+static _Atomic unsigned char fb_used[FB_MAX_SLOTS];  // 0 free, 1 in use
+
 fb_slot_t* fb_slot_new(void) {
-  const int i = atomic_fetch_add(&fb_nslots, 1);
-  if (i >= FB_MAX_SLOTS) {
-    fprintf(stderr, "too many harness fibers\n");
-    _exit(2);
+  // slots of finished fibers are recycled (long thorough runs create far more fibers than there are slots)
+  unsigned tries;
+  for (tries = 0; tries < 4 * FB_MAX_SLOTS; ++tries) {
+    const unsigned i = atomic_fetch_add(&fb_cursor, 1) % FB_MAX_SLOTS;
+    unsigned char exp = 0;
+    fb_slot_t* s = &fb_slots[i];
+    if (atomic_load(&fb_used[i]) == 1 && atomic_load(&s->finished) && !atomic_load(&s->where)) {
+      exp = 1;
+      if (!atomic_compare_exchange_strong(&fb_used[i], &exp, 2)) continue;
+    } else if (!atomic_compare_exchange_strong(&fb_used[i], &exp, 2)) {
+      continue;
+    }
+    memset(s, 0, sizeof(*s));
+    s->id = (int)i;
+    s->rng = vp_mix(vp_cfg.seed, 5000 + (uint64_t)atomic_load(&fb_cursor));
+    atomic_store(&fb_used[i], 1);
+    int n = atomic_load(&fb_nslots);
+    while ((int)i + 1 > n && !atomic_compare_exchange_weak(&fb_nslots, &n, (int)i + 1)) {
+    }
+    return s;
   }
-  fb_slot_t* s = &fb_slots[i];
-  memset(s, 0, sizeof(*s));
-  s->id = i;
-  s->rng = vp_mix(vp_cfg.seed, 5000 + (uint64_t)i);
-  return s;
+  fprintf(stderr, "too many live harness fibers\n");
+  _exit(2);
 }
 
-void fb_slots_reset(void) { atomic_store(&fb_nslots, 0); }
+void fb_slots_reset(void) {
+  // called between trials when no harness fiber is alive
+  int i;
+  for (i = 0; i < FB_MAX_SLOTS; ++i) atomic_store(&fb_used[i], 0);
+  atomic_store(&fb_cursor, 0);
+  atomic_store(&fb_nslots, 0);
+}
 
 void fb_stranded_cb(void) {
   const int n = atomic_load(&fb_nslots);
